@@ -11,7 +11,7 @@ use rten_vecmath as vecmath;
 
 use crate::buffer_pool::BufferPool;
 use crate::infer_shapes::{
-    InferShapes, InferShapesContext, InferShapesError, ReductionOp, SymTensor, SymbolGen,
+    Constant, InferShapes, InferShapesContext, InferShapesError, ReductionOp, SymTensor, SymbolGen,
     impl_infer_shapes,
 };
 use crate::operator::{
@@ -31,6 +31,28 @@ macro_rules! impl_infer_shapes_for_reduce_op {
                 inputs: InferShapesContext,
                 sym_gen: &mut SymbolGen,
             ) -> Result<Vec<SymTensor>, InferShapesError> {
+                // If `axes` is missing or empty then either all or none of the
+                // axes are reduced, depending on `noop_with_empty_axes`.
+                let axes_empty = match inputs.get(1) {
+                    Some(axes) => matches!(
+                        axes.to_constant(),
+                        Some(Constant::Vector(axes)) if axes.is_empty()
+                    ),
+                    None => is_none_or_empty(self.axes.as_deref()),
+                };
+                if axes_empty {
+                    let data = inputs.require(0)?.clone();
+                    return ReductionOp {
+                        axes: if self.noop_with_empty_axes {
+                            Some(&[])
+                        } else {
+                            None
+                        },
+                        keep_dims: self.keep_dims,
+                    }
+                    .infer_shapes([data].into(), sym_gen);
+                }
+
                 ReductionOp {
                     axes: self.axes.as_deref(),
                     keep_dims: self.keep_dims,
